@@ -126,7 +126,10 @@ func strFormat(L *LState) int {
 		args[i-2] = L.Get(i)
 	}
 	npat := countFormatItems(str)
-	L.Push(LString(fmt.Sprintf(str, args[:intMin(npat, len(args))]...)))
+	if npat > len(args) {
+		L.ArgError(len(args)+2, "no value")
+	}
+	L.Push(LString(fmt.Sprintf(str, args[:npat]...)))
 	return 1
 }
 
